@@ -29,6 +29,13 @@ METER_TYPE = "1.1.96.1.1.255"
 OBIS6 = re.compile(r"^\d+(\.\d+){5}$")
 
 
+def _reg_vs_const(term):
+    """an ordering test of a transmitted register against an integer constant that registers of every width can fall on either side of"""
+    from sa.abseval import Sym
+    a = list(term.args) if len(term.args) == 2 else []
+    return len(a) == 2 and sum(isinstance(x, Sym) and x.pytype == "int" for x in a) == 1 and sum(isinstance(x, int) and not isinstance(x, bool) and 0 < x < 255 * 256 for x in a) == 1
+
+
 def check(src, rep):
     M = Model(src)
     from sa.oneshot import rule as _one_shot
@@ -124,7 +131,7 @@ def check(src, rep):
                                    ("frame", fr_fn, AObj("Container", {"information": AObj("Container", {"notification_body": AObj("Container", {"list_items": items}), "DateTime": AObj("Container", {"datetime": ADT})})}))):
                 res = AE.apply(f_, [arg])  # one interpreter state for all lists: module-level tables mutated by an earlier decode are seen by the later ones
                 results_ = [res]
-                if res[0] == "branch" and not (isinstance(res[1], Res) and res[1].op in ("Gt", "GtE", "Lt", "LtE")):
+                if res[0] == "branch" and not (isinstance(res[1], Res) and res[1].op in ("Gt", "GtE", "Lt", "LtE") and not _reg_vs_const(res[1])):
                     # a condition on abstract values (e.g. whether a date-time has a time zone): every outcome is judged
                     from sa.parsedworlds import run_valuations
                     outs_, _tr = run_valuations(AE, f_, [arg], limit=16)
